@@ -7,7 +7,6 @@ import Kopf.Lemmas.C18_Spec
 import Kopf.Lemmas.C18_Misc
 import Kopf.Lemmas.C18_Fns
 import Kopf.Lemmas.C18_Select
-import Kopf.Lemmas.C18_Outcomes
 namespace Kopf.C18
 open Kopf Kopf.J
 
@@ -338,13 +337,17 @@ theorem returned_patch_fidelity_of_contract {Op : Type} (applyOps : J → List O
     ∃ r, appliedObject applyOps b resp = some r ∧ LeafEq r m :=
   returned_patch_fidelity applyOps fromDiff nil hs c act b m hb p fns resp (fun _ _ => contract _ _) hserve hm
 
-/-- What the code does, exactly: `outcomes` is keyed by the handler ID, so the review is allowed iff
-    none of the selected handlers THAT ARE THE LAST OF THEIR ID raised. -/
-theorem serve_allowed_exact {Op : Type} (fromDiff : J → J → List Op) (hs : List (Handler × Bool)) (c : Cause)
-    (act : Handler → Act) (b : J) (p : List (String × J)) (fns : List Fn) (resp : Response Op)
+/-- allowed ⇔ no function with a MATCHING registration raised (selection and response combined) —
+    unguarded: also for two DIFFERENT functions under one id (before 2903555 the later outcome
+    overwrote the earlier one under the shared id: finding C18-F6, now a regression case in
+    corpus/C18/C18-F6-same-id-denial-lost.json).
+    `hact`: what an invocation does depends on the function and the id, not on which of the stacked
+    registrations of that function let it in. -/
+theorem serve_allowed_iff {Op : Type} (fromDiff : J → J → List Op) (hs : List (Handler × Bool)) (c : Cause)
+    (act : Handler → Act) (hact : ∀ h h', h.key = h'.key → act h = act h')
+    (b : J) (p : List (String × J)) (fns : List Fn) (resp : Response Op)
     (hserve : serve fromDiff hs c act b p fns = .ok resp) :
-    resp.allowed = true ↔
-      ∀ h, lastOfId (select hs c) h.id = some h → (act h).error = none := by
+    resp.allowed = true ↔ ∀ h m, (h, m) ∈ hs → gate h c m = true → (act h).error = none := by
   unfold serve at hserve
   cases hj : asJsonPatch fromDiff b p fns with
   | error e => simp [hj] at hserve
@@ -353,56 +356,47 @@ theorem serve_allowed_exact {Op : Type} (fromDiff : J → J → List Op) (hs : L
     cases hserve
     rw [allowed_iff]
     constructor
-    · intro h1 h hl
-      exact h1 _ ((collect_values act _ _).2 ⟨h, hl, rfl⟩)
+    · intro h1 h m hmem hg
+      obtain ⟨⟨h', hsel, hk, _⟩, _⟩ := stacked_registration_selected hs c h m hmem hg
+      rw [← hact h' h hk]
+      exact h1 _ (List.mem_map.2 ⟨h', hsel, rfl⟩)
     · intro h1 o ho
-      obtain ⟨h, hl, rfl⟩ := (collect_values act _ _).1 ho
-      exact h1 h hl
+      obtain ⟨h, hsel, rfl⟩ := List.mem_map.1 ho
+      obtain ⟨m, hmem, hg⟩ := (select_spec hs c).1 h hsel
+      exact h1 h m hmem hg
 
-/-- Full clause of the property — FALSE of the code (`same_id_denial_lost_witness`, open finding C18-F6):
-      `resp.allowed = true ↔ ∀ h m, (h, m) ∈ hs → gate h c m = true → (act h).error = none`
-    ("allowed iff no selected handler raised").
-    Proved under the guard that the selected handlers carry pairwise different IDs (two DIFFERENT
-    functions registered under one id — e.g. `@kopf.on.validate` and `@kopf.on.mutate` on two functions
-    of one name — are both selected; stacked registrations of ONE function are not: they are
-    deduplicated). `hact`: what an invocation does depends on the function and the id, not on which
-    of the stacked registrations of that function let it in. -/
-theorem serve_allowed_iff_partial {Op : Type} (fromDiff : J → J → List Op) (hs : List (Handler × Bool)) (c : Cause)
-    (act : Handler → Act) (hact : ∀ h h', h.key = h'.key → act h = act h')
-    (hids : ((select hs c).map (·.id)).Nodup)
-    (b : J) (p : List (String × J)) (fns : List Fn) (resp : Response Op)
+/-- every raised error of a selected handler is among those the status is chosen from: the errors the
+    response ranks are exactly the selected handlers' errors, in execution order -/
+theorem serve_errors_complete {Op : Type} (fromDiff : J → J → List Op) (hs : List (Handler × Bool)) (c : Cause)
+    (act : Handler → Act) (b : J) (p : List (String × J)) (fns : List Fn) (resp : Response Op)
     (hserve : serve fromDiff hs c act b p fns = .ok resp) :
-    resp.allowed = true ↔ ∀ h m, (h, m) ∈ hs → gate h c m = true → (act h).error = none := by
-  rw [serve_allowed_exact fromDiff hs c act b p fns resp hserve]
-  constructor
-  · intro h1 h m hmem hg
-    obtain ⟨⟨h', hsel, hk, _⟩, _⟩ := stacked_registration_selected hs c h m hmem hg
-    rw [← hact h' h hk]
-    exact h1 h' (lastOfId_of_nodup _ hids h' hsel)
-  · intro h1 h hl
-    obtain ⟨m, hmem, hg⟩ := (select_spec hs c).1 h (lastOfId_spec _ _ _ hl).1
-    exact h1 h m hmem hg
+    resp.status = (pickMin ((select hs c).filterMap (fun h => (act h).error))).map
+      (fun e => ⟨message e, statusCode e⟩) := by
+  unfold serve at hserve
+  cases hj : asJsonPatch fromDiff b p fns with
+  | error e => simp [hj] at hserve
+  | ok ops =>
+    simp only [hj] at hserve
+    cases hserve
+    simp [buildResponse, errorsOf, List.filterMap_map]
 
-/-- C18-F6 (open): `@kopf.on.validate … def check: raise AdmissionError(code=422)` followed by
-    `@kopf.on.mutate … def check` — two functions, one id. Both are selected and run; the validating
-    handler raises; the review is answered `allowed: true` (its outcome was overwritten under the key
-    `check`). Replayed on the real code: corpus/C18/C18-F6-same-id-denial-lost.json. -/
-theorem same_id_denial_lost_witness :
-    ∃ (hs : List (Handler × Bool)) (c : Cause) (act : Handler → Act) (resp : Response Nat) (h : Handler),
-      serve (fun _ _ => [1]) hs c act (.obj []) [("spec", .obj [("x", .num 1)])] [] = .ok resp ∧
-      h ∈ select hs c ∧ (act h).error ≠ none ∧ resp.allowed = true ∧ resp.status = none :=
-  ⟨[(⟨"check", .validating, none, none, "f1"⟩, true), (⟨"check", .mutating, none, none, "f2"⟩, true)],
-   ⟨none, some "check", some "CREATE", none⟩,
-   fun h => if h.fn == "f1" then ⟨[], some ⟨.admission, some 422, "spec is wrong", "r"⟩⟩ else ⟨[], none⟩,
-   _, ⟨"check", .validating, none, none, "f1"⟩, rfl, by decide, by simp, rfl, rfl⟩
-
-/-- …and it is order-dependent: registered the other way round the same review is denied. -/
+-- regression for C18-F6: `@kopf.on.validate … def check: raise AdmissionError(code=422)` and
+-- `@kopf.on.mutate … def check` (two functions, one id) — the review is denied with the 422 status
+-- in BOTH registration orders (and the patch is still attached):
+example : ∃ resp : Response Nat,
+    serve (fun _ _ => [1])
+      [(⟨"check", .validating, none, none, "f1"⟩, true), (⟨"check", .mutating, none, none, "f2"⟩, true)]
+      ⟨none, some "check", some "CREATE", none⟩
+      (fun h => if h.fn == "f1" then ⟨[], some ⟨.admission, some 422, "spec is wrong", "r"⟩⟩ else ⟨[], none⟩)
+      (.obj []) [("spec", .obj [("x", .num 1)])] [] = .ok resp ∧
+    resp.allowed = false ∧ resp.status = some ⟨"spec is wrong", 422⟩ ∧ resp.patch = some [1] := ⟨_, rfl, rfl, rfl, rfl⟩
 example : ∃ resp : Response Nat,
     serve (fun _ _ => [1])
       [(⟨"check", .mutating, none, none, "f2"⟩, true), (⟨"check", .validating, none, none, "f1"⟩, true)]
       ⟨none, some "check", some "CREATE", none⟩
       (fun h => if h.fn == "f1" then ⟨[], some ⟨.admission, some 422, "spec is wrong", "r"⟩⟩ else ⟨[], none⟩)
-      (.obj []) [("spec", .obj [("x", .num 1)])] [] = .ok resp ∧ resp.allowed = false := ⟨_, rfl, rfl⟩
+      (.obj []) [("spec", .obj [("x", .num 1)])] [] = .ok resp ∧
+    resp.allowed = false ∧ resp.status = some ⟨"spec is wrong", 422⟩ := ⟨_, rfl, rfl, rfl⟩
 
 /-- the warnings of the response are those the selected handlers issued, handler by handler in
     registry (= execution) order, each handler's own in the order it issued them -/
